@@ -736,11 +736,113 @@ func (area) Run(line string) string {
 			}
 			return res
 		})
+	case "row":
+		// row ci p sa sb c1: one character ('<', '=', '>') per byte c2 = 0..255, the sign of
+		// NaturalCmp(p+c1+sa, p+c2+sb, ci); even c2 through NaturalCmp, odd c2 through NaturalLess in both directions
+		// (the model side alternates between the index-level transcription and the chunk-level model in the same way).
+		if len(f) != 6 {
+			return "bad-op"
+		}
+		p, sa, sb, c := string(hx.UnHex(f[2])), string(hx.UnHex(f[3])), string(hx.UnHex(f[4])), hx.UnHex(f[5])
+		if len(c) != 1 {
+			return "bad-op"
+		}
+		ci := f[1] == "1"
+		a := p + string(c) + sa
+		return guarded(func() string {
+			out := make([]byte, 256)
+			for c2 := 0; c2 < 256; c2++ {
+				b := p + string([]byte{byte(c2)}) + sb
+				var v int
+				if c2%2 == 0 {
+					v = txt.NaturalCmp(a, b, ci)
+				} else {
+					switch lt, gt := txt.NaturalLess(a, b, ci), txt.NaturalLess(b, a, ci); {
+					case lt && gt:
+						return "less-both-ways"
+					case lt:
+						v = -1
+					case gt:
+						v = 1
+					}
+				}
+				switch {
+				case v < 0:
+					out[c2] = '<'
+				case v == 0:
+					out[c2] = '='
+				default:
+					out[c2] = '>'
+				}
+			}
+			return string(out)
+		})
 	}
 	return "bad-op"
 }
 
+// rowContexts are the fixed contexts (p, sa, sb) of the exhaustive block of the `rows` area: for each of them every
+// pair of bytes (c1, c2) is compared in both case modes as p+c1+sa against p+c2+sb.
+var rowContexts = [][3]string{
+	{"", "", ""},              // all pairs of one-byte strings
+	{"a", "", ""},             // after a letter
+	{"7", "", ""},             // the byte continues or ends a number
+	{"0", "", ""},             // ... a number that is a single zero so far
+	{"", "1", "1"},            // a digit follows
+	{"", "a", "A"},            // a case difference follows (tie-break against a later byte)
+	{"x0", "5", "5"},          // inside a number with a leading zero
+	{"A", "b", ""},            // one side ends right after the byte
+	{"\xc3", "\xa9", "\x89"},  // inside a multi-byte UTF-8 sequence
+	{"Z9", "0z", "0Z"},        // digit run, then a zero and a case difference
+	{"a0", "", ""},            // after a letter and a leading zero
+	{"", "", "0"},             // one side continues with a zero
+	{"", "0", ""},             // ... the other side
+	{"9", "9", ""},            // runs of different lengths around the byte
+	{"00", "1", "01"},         // zero counts that differ behind the byte
+	{"b\x00", "\xff", "\xfe"}, // NUL before, invalid UTF-8 behind
+}
+
+type rowsArea struct{ area }
+
+// Gen of the `rows` area: first the exhaustive block (len(rowContexts) x 2 modes x 256 bytes c1, independent of the
+// seed), then rows in random contexts.
+func (rowsArea) Gen(r *hx.Rng, n int, _ string, emit func(string)) {
+	k := 0
+	for _, cx := range rowContexts {
+		for ci := 0; ci < 2; ci++ {
+			for c1 := 0; c1 < 256; c1++ {
+				if k >= n {
+					return
+				}
+				emit("row " + strconv.Itoa(ci) + " " + hx.Hex([]byte(cx[0])) + " " + hx.Hex([]byte(cx[1])) + " " +
+					hx.Hex([]byte(cx[2])) + " " + hx.Hex([]byte{byte(c1)}))
+				k++
+			}
+		}
+	}
+	for ; k < n; k++ {
+		emit(randomRow(r))
+	}
+}
+
+func randomRow(r *hx.Rng) string {
+	short := func() string {
+		s := genStr(r)
+		if len(s) > 6 {
+			s = s[:r.Intn(7)]
+		}
+		return s
+	}
+	p, sa := short(), short()
+	sb := sa
+	if r.Bool() {
+		sb = related(r, sa, pickKind(r))
+	}
+	return "row " + strconv.Itoa(r.Intn(2)) + " " + hx.Hex([]byte(p)) + " " + hx.Hex([]byte(sa)) + " " + hx.Hex([]byte(sb)) +
+		" " + hx.Hex([]byte(anyByte(r)[:1]))
+}
+
 func main() {
 	debug.SetMaxStack(64 << 20) // runaway recursion dies in milliseconds, not after filling 1 GB
-	hx.Main(map[string]hx.Area{"natsort": area{}})
+	hx.Main(map[string]hx.Area{"natsort": area{}, "rows": rowsArea{}})
 }
